@@ -49,6 +49,7 @@ pub fn base_plan(p: &dyn Profile, seed: u64, run: u64, wp: &WorldPlan) -> Plan {
         seed,
         run,
         custom_chain: wp.custom_chain,
+        prefix: crate::world::prefix().to_string(),
         twin: wp.twin,
         accounts: wp.accounts.clone(),
         codes: wp.codes.clone(),
